@@ -8,7 +8,13 @@ files) x exclusion patterns of the six unambiguous gitignore classes (bare name,
 `.`, with `..`): the REAL `scan_path` (with `_analyze_file` wrapped) is compared with the model
 `CL.Sel.scanPath` run on a snapshot of the same directory, the oracles answered by the real
 pathspec / Pygments per path; (3) direct oracle: the selected set recomputed from the property
-text; (4) a twin tree holding only the qualifying files must give the same entries."""
+text; (4) a twin tree holding only the qualifying files must give the same entries; (5) state
+probe: a share of the trees is mutated after the first scan (files copied / renamed to another
+extension, new empty files, contents swapped, deletions) and scanned twice more in the same process,
+with the first report handed back as cached_report and from scratch; (6) symbolic links to files
+(inside the tree, into hidden / excluded folders, outside the root) are files of their own;
+(7) exclusion lists WITH negation lines, judged by "the last matching line decides" where the real
+`git check-ignore` agrees (gitignore_stream.correspond_negation)."""
 import json
 import os
 import sys
@@ -45,11 +51,12 @@ def regen(ctx):
 
 # ------------------------------------------------------------------ cases
 
-def gen_case(rnd):
+def gen_case(rnd, rescan_share=1.0):
     tree = sr.gen_tree(rnd, max_depth=rnd.choice([2, 3, 4, 4]))
     patterns = sr.gen_patterns(rnd, tree)
+    muts = sr.gen_mutations(rnd, tree) if not sr.all_links(tree) else []      # mutations move / rewrite plain files only
     return {"tree": sr.tree_to_json(tree), "patterns": patterns, "sources": sr.split_sources(rnd, patterns),
-            "form": rnd.choice(FORMS)}
+            "form": rnd.choice(FORMS), "mutations": muts if rnd.random() < rescan_share else []}
 
 
 def root_argument(T, form, tree):
@@ -77,8 +84,9 @@ def observe(case):
         cwd, arg = root_argument(T, case["form"], tree)
         T.chdir(cwd)
         sr.install_exclusions(T.root, case["sources"], arg)
+        cb1 = None
         try:
-            entries, analysed = sr.run_scan(arg)
+            entries, analysed, cb1 = sr.run_scan_cb(arg)
             err = None
         except Exception as e:  # the scan must not crash on these trees
             entries, analysed, err = [], [], "%s: %s" % (type(e).__name__, e)
@@ -94,6 +102,18 @@ def observe(case):
             "analysed": analysed,
             "full": {k: [lang, cs, [list(m) for m in ms], p, loc] for (k, lang, cs, ms, p, loc) in entries},
         }
+        # state probe: the codebase changes (case["mutations"]) and is scanned AGAIN in this process - once with the
+        # first scan's report handed back as `cached_report` (what `codelimit scan` does), once from scratch
+        if case.get("mutations") and cb1 is not None:
+            try:
+                cached = sr.as_cached_report(cb1)
+                sr.apply_mutations_fs(T.root, case["mutations"])
+                e_c, _a, _cb = sr.run_scan_cb(arg, cached)
+                e_f, _a, _cb = sr.run_scan_cb(arg)
+                real["rescan"] = {"cached": {k: [lang, cs, [list(m) for m in ms], p, loc] for (k, lang, cs, ms, p, loc) in e_c},
+                                  "fresh": {k: [lang, cs, [list(m) for m in ms], p, loc] for (k, lang, cs, ms, p, loc) in e_f}}
+            except Exception as e:  # noqa: BLE001
+                real["rescan"] = {"error": "%s: %s" % (type(e).__name__, e)}
         # the twin: only the qualifying files (as the property text selects them), same exclusions
         expected = sr.spec_selected(tree, case["patterns"])
         twin = sr.prune(tree, set(expected))
@@ -162,6 +182,23 @@ def oracle(case, real):
         bad.append("analysed although not qualifying: %s" % not_qual[:4])
     if real["analysed"] != keys:
         bad.append("analysed paths differ from the keys")
+    rs = real.get("rescan")
+    if rs is not None:
+        if "error" in rs:
+            bad.append("second scan (after the mutations) raised %s" % rs["error"])
+        else:
+            exp2 = sr.spec_selected(sr.tree_from_files(sr.mutate_files(sr.files_dict(tree), case["mutations"])), case["patterns"])
+            for which in ("cached", "fresh"):
+                got = rs[which]
+                tag = "second scan after %s (%s)" % ([op[:1] + ["/".join(x) for x in op[1:] if isinstance(x, list)] for op in case["mutations"]], "first report handed back as cached_report" if which == "cached" else "from scratch")
+                if set(got) != set(exp2):
+                    bad.append("%s: key set: extra %s missing %s" % (tag, sorted(set(got) - set(exp2))[:4], sorted(set(exp2) - set(got))[:4]))
+                for k, v in got.items():
+                    if k in exp2 and (v[0] != exp2[k][0] or v[1] != exp2[k][1]):
+                        bad.append("%s: %s reported as (%s, %s), required (%s, %s)" % (tag, k, v[0], v[1][:8], exp2[k][0], exp2[k][1][:8]))
+            if rs["cached"] != rs["fresh"]:
+                diff = sorted(set(rs["cached"]) ^ set(rs["fresh"])) or [k for k in rs["cached"] if rs["cached"][k] != rs["fresh"].get(k)]
+                bad.append("second scan with the first report handed back differs from a scan from scratch at %s" % diff[:4])
     if real.get("twin") != real["full"]:
         t = real.get("twin") or {}
         diff = sorted(set(t) ^ set(real["full"])) or [k for k in t if t[k] != real["full"].get(k)]
@@ -224,6 +261,14 @@ FIXED = [
                             ["D", "lib", [["D", "a", [["F", "z.py", "def f(a):\n    return a\n"]]]]]]],
      "patterns": ["a/*"], "sources": {"option": [], "config": [], "gitignore": ["a/*"]}, "form": "dot"},
     {"tree": ["D", "root", []], "patterns": [], "sources": {"option": [], "config": [], "gitignore": []}, "form": "abs"},
+    # anchored patterns and same-named directories deeper in the tree (seeded changes C11-4, C12-1: pruning directories by
+    # their bare name): `/out` and `src/gen` exclude only the entries directly at that path
+    {"tree": ["D", "root", [["D", "out", [["F", "a.py", "def f(a):\n    return a\n"]]], ["F", "c.py", "def f(a):\n    return a\n"],
+                            ["D", "src", [["D", "out", [["F", "b.py", "def f(a):\n    return a\n"], ["D", "deep", [["F", "b2.js", "function f(a) {\n  return a;\n}\n"]]]]],
+                                          ["D", "gen", [["F", "g.py", "def f(a):\n    return a\n"]]],
+                                          ["D", "pkg", [["D", "gen", [["F", "h.py", "def f(a):\n    return a\n"]]],
+                                                        ["D", "src", [["D", "gen", [["F", "i.py", "def f(a):\n    return a\n"]]]]]]]]]]],
+     "patterns": ["/out", "src/gen"], "sources": {"option": ["/out"], "config": [], "gitignore": ["src/gen"]}, "form": "rel"},
 ]
 
 
@@ -233,9 +278,11 @@ def correspond(ctx):
     cases = [dict(c) for c in FIXED]
     for f in FORMS:
         cases.append(dict(FIXED[0], form=f))
-    cases += [gen_case(rnd) for _ in range(n)]
+    cases += [gen_case(rnd, ctx.pick(0.34, 0.5)) for _ in range(n)]
     obs, dis, fails = run_cases(cases)
-    dist = {"forms": {}, "sources": {}, "skip_reasons": {}, "files": 0, "selected": 0}
+    dist = {"forms": {}, "sources": {}, "skip_reasons": {}, "files": 0, "selected": 0,
+            "rescans_after_mutation": sum(1 for c in cases if c.get("mutations")),
+            "rescan_mutations": {k: sum(1 for c in cases for op in c.get("mutations", []) if op[0] == k) for k in ("copy", "move", "write", "delete")}}
     nontrivial = set()
     for c, (real, _l, _i) in zip(cases, obs):
         nf, ns, reasons = classify(c, real)
@@ -245,6 +292,9 @@ def correspond(ctx):
         for r in reasons:
             dist["skip_reasons"][r] = dist["skip_reasons"].get(r, 0) + 1
         dist["files"] += nf; dist["selected"] += ns
+        nl = len(sr.all_links(sr.tree_from_json(c["tree"])))
+        dist["trees_with_symlinks"] = dist.get("trees_with_symlinks", 0) + (1 if nl else 0)
+        dist["symlinks"] = dist.get("symlinks", 0) + nl
         if ns > 0 and reasons:
             nontrivial.add(json.dumps([c["tree"], c["patterns"]], sort_keys=True))
     # the Lean model of the six pattern classes (Spec/Gitignore.lean; Props/C11pat.lean instantiate the C11 / C12
@@ -261,15 +311,18 @@ def correspond(ctx):
         fails.append({"input": {"stream": "gitignore-scan", "patterns": d.get("patterns"), "sources": d.get("sources")},
                       "observed": {"extra_in_scan": d.get("extra_in_scan"), "missing_in_scan": d.get("missing_in_scan"), "error": d.get("error")},
                       "required": "scan_path selects exactly the files that are not hidden, of a supported language and not excluded by the pattern model"})
+    gn = gitignore_stream.correspond_negation(ctx.rng("gitignore-negation"), ctx.pick(60, 800))
+    fails = gn["failures"][:5] + fails
+    dist["gitignore_negation"] = gn["counts"]
     dist["gitignore"] = {k: v for k, v in gi["counts"].items() if not isinstance(v, dict)}
     dist["gitignore_scan"] = gs["counts"]
     return {
-        "evaluations": len(cases) + gi["counts"]["cases"] + gs["counts"].get("cases", 0), "distinct_nontrivial": len(nontrivial) + gi["counts"]["patterns_biting"],
-        "rule": "%d random trees (name pool: hidden .git/.venv/.cache/.hidden.py, built-in excluded tests/test/build/dist/node_modules/venv/_build/buck-out, ordinary src/pkg/a/lib; depth <= 4; supported, unsupported and no extension; Latin-1, malformed, empty contents) x 0-3 patterns of the 5 gitignore classes x pattern source (option/.codelimit.yml/.gitignore/mixed) x root form (%s) + %d fixed cases; non-trivial = distinct (tree, patterns) with at least one selected and one skipped file; PLUS pattern lists of the six classes x exhaustive / random path universes: the Lean pattern model vs Scanner.generate_exclude_spec + is_excluded (decisions, parse classes, generated regular expressions), and scan_path on real trees vs the model's selection (non-trivial there = patterns that exclude at least one path)" % (n, "/".join(FORMS), len(FIXED) + len(FORMS)),
+        "evaluations": len(cases) + gi["counts"]["cases"] + gs["counts"].get("cases", 0) + gn["counts"]["cases"], "distinct_nontrivial": len(nontrivial) + gi["counts"]["patterns_biting"],
+        "rule": "%d random trees (name pool: hidden .git/.venv/.cache/.hidden.py, built-in excluded tests/test/build/dist/node_modules/venv/_build/buck-out, ordinary src/pkg/a/lib; depth <= 4; supported, unsupported and no extension; Latin-1, malformed, empty contents; a third of the trees with 1-3 symbolic links to files inside the tree - also in hidden / excluded folders - or outside the root) x 0-3 patterns of the 5 gitignore classes x pattern source (option/.codelimit.yml/.gitignore/mixed) x root form (%s) + %d fixed cases; state probe: after the first scan a share of the trees is mutated (a file copied / renamed to another extension in the same or another directory, new possibly empty files, contents swapped or emptied, files deleted) and scanned twice more in the same process - with the first scan's report (written and read back) handed in as cached_report, and from scratch: both must give the entries the property text requires for the mutated tree and agree with each other; non-trivial = distinct (tree, patterns) with at least one selected and one skipped file; PLUS pattern lists of the six classes x exhaustive / random path universes: the Lean pattern model vs Scanner.generate_exclude_spec + is_excluded (decisions, parse classes, generated regular expressions), and scan_path on real trees vs the model's selection (non-trivial there = patterns that exclude at least one path); PLUS %d pattern lists WITH negation lines (`!` + one of the six classes, aimed at a path an earlier line excludes; one source per list) x real trees + path universes: scan_path and generate_exclude_spec/is_excluded judged by the rule that the LAST matching line decides, where %s agrees (%d decisions judged, %d re-included by a `!` line, %d not judged because git decides per directory entry)" % (n, "/".join(FORMS), len(FIXED) + len(FORMS), gn["counts"]["cases"], "the real `git check-ignore`" if gn["counts"]["git"] else "(git not installed: the reading alone)", gn["counts"].get("judged", 0), gn["counts"].get("reincluded", 0), gn["counts"].get("git_differs_not_judged", 0)),
         "samples": [{"form": c["form"], "patterns": c["patterns"], "sources": c["sources"],
                      "keys": [e[0] for e in o[0]["entries"]][:6]} for c, o in list(zip(cases, obs))[:4]],
         "exhaustive": False, "distribution": dist,
-        "disagreements": dis[:50], "oracle_failures": fails[:50],
+        "disagreements": dis[:50], "oracle_failures": sorted(fails, key=lambda f: len(json.dumps(f["input"], default=str)))[:50],
         "generated_hashes": {"Gen/Excludes.lean": _sha(os.path.join(common.LEAN, "CodeLimit", "Gen", "Excludes.lean"))},
     }
 
@@ -299,6 +352,17 @@ def search(ctx, hints):
 
 def replay(payload):
     c = payload["input"]
+    if c.get("stream") == "gitignore-negation":
+        import gitignore_stream
+        c = dict(c, universe=c.get("universe") or [])
+        f, counts = gitignore_stream.judge_negation_case(c)
+        print("exclusion lines %s via %s" % (c["patterns"], [k for k, v in c["sources"].items() if v]))
+        print("violated: %s" % (f["required"] if f else "nothing"))
+        if f:
+            print("observed: %s" % (f["observed"],))
+        return f is None
+    if "form" not in c:
+        print("stream %s: re-run the check" % c.get("stream")); return False
     real, _line, _ids = observe(c)
     bad = oracle(c, real)
     print("root form %s, patterns %s via %s" % (c["form"], c["patterns"], c["sources"]))
